@@ -13,35 +13,35 @@ Local Open Scope Z_scope.
 (** ** The tracker with one extra hold *)
 
 Section extra.
-  Context (cfg : config) (i : nat) (cause : option err) (G : Prop).
+  Context (cfg : config) (i : nat) (cause : option err).
 
-  (** [tp] is [tm] plus the hold [hk]; its extra failures are capacity flags of grants *)
+  (** [tp] is [tm] plus the hold [hk], whose name is pending in [tp]; no extra failures *)
   Definition Ext (hk : hold) (tm tp : tstate) : Prop :=
-    t_now tp = t_now tm ∧ t_pending tp = t_pending tm ∧ t_waiters tp = t_waiters tm ∧ t_holds tp ≡ₚ hk :: t_holds tm ∧
-    ∀ x, x ∈ t_fail tp → x ∈ t_fail tm ∨ (G ∧ x = (i, "C01:grant-over-capacity"%string)).
+    t_now tp = t_now tm ∧ t_pending tp = h_name hk :: t_pending tm ∧ t_waiters tp = t_waiters tm ∧
+    t_holds tp ≡ₚ hk :: t_holds tm ∧ ∀ x, x ∈ t_fail tp → x ∈ t_fail tm.
 
-  Lemma done1_Ext hk tm tp c : alive (c_at c) hk = true → (is_grant (c_resp c) = true → G) →
-    Ext hk tm tp → Ext hk (done1 cfg i cause tm c) (done1 cfg i cause tp c).
+  Lemma cap_ok_Ext hk w a hsm hsp pd : alive a hk = true → hsp ≡ₚ hk :: hsm →
+    cap_ok w a hsp (h_name hk :: pd) = cap_ok w a hsm pd.
   Proof.
-    intros Ha HG (En & Ep & Ew & Hh & Hf). rewrite !done1_eq. rewrite Ew. split_and!; simpl; try done.
-    - unfold dh. destruct (findw _ _) as [|w rest]; [done|]. unfold ef. rewrite (lfilter_perm _ _ _ Hh). simpl. by rewrite Ha.
-    - intros x. rewrite !elem_of_app. intros [Hx|Hx]; [|destruct (Hf x Hx); auto].
-      unfold df in *. destruct (findw _ _) as [|w rest]; [by left; left|].
-      apply elem_of_list_In, in_map_iff in Hx as (tg & <- & Hx%elem_of_list_In).
-      apply elem_of_app in Hx as [Hx|Hx]; [|left; left; apply elem_of_list_In, in_map_iff; exists tg; split; [done|];
-                                              apply elem_of_list_In, elem_of_app; by right].
-      destruct (is_grant (c_resp c)) eqn:Eg; [|by apply elem_of_nil in Hx].
-      unfold grant_flags in Hx. apply elem_of_app in Hx as [Hx|Hx].
-      + destruct (cap_ok w _ (t_holds tp)); [by apply elem_of_nil in Hx|]. apply elem_of_list_singleton in Hx as ->. right. auto.
-      + left. left. apply elem_of_list_In, in_map_iff. exists tg. split; [done|]. apply elem_of_list_In, elem_of_app. left.
-        unfold grant_flags. apply elem_of_app. by right.
+    intros Ha Hp. unfold cap_ok, pend_on, on_name, ef. rewrite (lfilter_perm _ _ _ (lfilter_perm _ _ _ Hp)). simpl. rewrite Ha. simpl.
+    destruct (bool_decide (h_name hk = tw_name w)); simpl; f_equal; lia.
   Qed.
 
-  Lemma done_list_Ext hk cs : ∀ tm tp, (∀ c, c ∈ cs → alive (c_at c) hk = true ∧ (is_grant (c_resp c) = true → G)) →
+  Lemma done1_Ext hk tm tp c : alive (c_at c) hk = true →
+    Ext hk tm tp → Ext hk (done1 cfg i cause tm c) (done1 cfg i cause tp c).
+  Proof.
+    intros Ha (En & Ep & Ew & Hh & Hf). rewrite !done1_eq. rewrite Ew, Ep. split_and!; simpl; try done.
+    - unfold dh. destruct (findw _ _) as [|w rest]; [done|]. unfold ef. rewrite (lfilter_perm _ _ _ Hh). simpl. by rewrite Ha.
+    - intros x. rewrite !elem_of_app. intros [Hx|Hx]; [left|right; by apply Hf].
+      unfold df in *. destruct (findw _ _) as [|w rest]; [done|]. destruct (is_grant (c_resp c)); [|done].
+      unfold grant_flags in *. by rewrite (cap_ok_Ext hk w _ (t_holds tm) (t_holds tp)) in Hx.
+  Qed.
+
+  Lemma done_list_Ext hk cs : ∀ tm tp, (∀ c, c ∈ cs → alive (c_at c) hk = true) →
     Ext hk tm tp → Ext hk (done_list cfg i cause cs tm) (done_list cfg i cause cs tp).
   Proof.
     induction cs as [|c cs IH]; intros tm tp Hc HE; [done|]. simpl. apply IH; [intros; apply Hc; by right|].
-    destruct (Hc c) as [? ?]; [left|]. by apply done1_Ext.
+    apply done1_Ext; [apply Hc; left|done].
   Qed.
 End extra.
 
@@ -92,11 +92,9 @@ Section ipcname.
   Lemma track_ipc_name_ok n s s' o t :
     Inv cfg s → st_shut s = false → [] ∉ ipc_candidates n s → TR X cfg s t →
     (s', o) ∈ ipc_unlock cfg n None s →
-    (multi_grant (comps o) → X i "C03:not-fifo"%string) →
-    ((∃ c, c ∈ comps o ∧ is_grant (c_resp c) = true) → X i "C01:grant-over-capacity"%string) →
-    TR X cfg s' (track_step cfg i (EIpcUnlock n None) o t) ∨ TRP X cfg s' (track_step cfg i (EIpcUnlock n None) o t).
+    TR X cfg s' (track_step0 cfg i (EIpcUnlock n None) o t) ∨ TRP X cfg s' (track_step0 cfg i (EIpcUnlock n None) o t).
   Proof.
-    intros HI Hsh Hne HT Hin HM HG. unfold ipc_unlock in Hin.
+    intros HI Hsh Hne HT Hin. unfold ipc_unlock in Hin.
     destruct (ipc_candidates n s) as [|k0 ks] eqn:Ecand.
     { (* no hold of that name *)
       apply elem_of_list_singleton in Hin. injection Hin as -> ->. left. simpl.
@@ -122,68 +120,57 @@ Section ipcname.
     assert (count_name n t ≠ 0) as Hcnt.
     { rewrite (TR_count _ _ _ _ HI HT). destruct Hlive as (ob & -> & Hkk). destruct (lo_keys ob); [by apply elem_of_nil in Hkk|simpl; lia]. }
     rewrite bool_decide_eq_false_2 by done. rewrite flag_true by done.
-    (* the oracle's completions, with the released hold still in its list *)
     set (outs := o1 ++ [OIpcUnlock (Some true) None]) in *.
-    set (Gr := ∃ c, c ∈ comps outs ∧ is_grant (c_resp c) = true).
     set (tm := t_completions cfg i None outs (drop_hold n k t)) in *.
-    set (tp := t_completions cfg i None outs t).
-    assert (st_now s < match h_deadline hk with Some d => d | None => st_now s + 1 end) as Hal.
-    { pose proof (hr_lease _ _ _ _ _ _ (tr_holds _ _ _ _ HT) Hsh hk Hhk) as Hl. rewrite Hl. unfold tdl.
-      destruct (st_timers s !! tkey (h_name hk) (h_key hk)) as [tm'|] eqn:Et; simpl; [|lia].
-      by destruct (inv_timers _ _ HI _ _ Et) as (_ & ? & _). }
-    assert (Ext i Gr hk tm tp) as (En & Ep & Ew & Hh & Hf).
-    { unfold tm, tp. rewrite !t_completions_eq. apply done_list_Ext.
-      - intros c Hc. rewrite sort_completions_eq, sortc_perm in Hc. split; [|intros; by exists c].
-        rewrite Hco in Hc. destruct c as [[w a] r]. apply elem_of_comps in Hc. destruct (Ho _ Hc) as (w' & key & [= -> -> ->] & _).
-        unfold alive, c_at. simpl. destruct (h_deadline hk); [lia|done].
-      - split_and!; simpl; try done; [|auto].
-        rewrite (NoDup_key_split hkey (t_holds t) hk (hr_nodup _ _ _ _ _ _ (tr_holds _ _ _ _ HT)) Hhk) at 1. constructor.
-        apply Permutation_refl', lfilter_ext. intros h _. unfold hkey. rewrite <- Hhn, <- Hhkk. f_equal.
-        repeat case_bool_decide; simpl; try done; try congruence. }
-    assert (fails_ok X tp) as HXp.
-    { intros j tag Hj. destruct (Hf _ Hj) as [?|[Hg [= -> ->]]]; [by apply (tr_fail _ _ _ _ HTm)|by apply HG]. }
-    assert (¬ SeqDefs.live s1 n k) as Hdead.
-    { intros Hl. destruct (TR_live_some _ _ _ _ HTm _ _ Hl) as (h & _ & Hh' & Hn' & Hk').
-      assert (h ∈ t_holds tm) as Hh'' by done. clear Hh'.
-      (* every hold of [tm] comes from the dropped list or from a completion, whose key differs *)
-      assert (∀ h, h ∈ t_holds tm → h_name h = n → h_key h ≠ k) as Hnok; [|by eapply Hnok].
-      clear h Hh'' Hn' Hk'. unfold tm. rewrite t_completions_eq.
-      assert (∀ c, c ∈ sort_completions outs → ∀ key e, c_resp c = RLock true key e → key ≠ k) as Hkeys.
-      { intros c Hc key e Er. rewrite sort_completions_eq, sortc_perm, Hco in Hc. destruct c as [[w a] r]. apply elem_of_comps in Hc.
-        destruct (Ho _ Hc) as (w' & key' & [= -> -> ->] & Hne'). unfold c_resp in Er. simpl in Er. by injection Er as <- _. }
-      revert Hkeys. generalize (sort_completions outs). intros cs.
-      assert (∀ h, h ∈ t_holds (drop_hold n k t) → h_name h = n → h_key h ≠ k) as H0.
-      { intros h [Hf' _]%elem_of_lfilter Hn' Hk'. rewrite Hn', Hk', !bool_decide_eq_true_2 in Hf' by done. done. }
-      revert H0. generalize (drop_hold n k t). induction cs as [|c cs IH]; intros t0 H0 Hkeys; [done|]. simpl.
-      apply IH; [|intros; eapply Hkeys; [by right|done]].
-      intros h. rewrite done1_eq. simpl. unfold dh. destruct (findw _ _) as [|w rest]; [by apply H0|].
-      intros [[_ Hh']%elem_of_lfilter|Hh']%elem_of_app; [by apply H0|].
-      destruct (c_resp c) as [[] key e| |] eqn:Er; try (by apply elem_of_nil in Hh'). apply elem_of_list_singleton in Hh' as ->. simpl.
-      intros _. eapply Hkeys; [left|done]. }
-    destruct (List.filter (λ h, bool_decide (h_name h = n)) (t_holds tp)) as [|h1 [|h2 r]] eqn:Efil.
-    - (* impossible: the released hold is still there *)
-      exfalso. assert (hk ∈ List.filter (λ h, bool_decide (h_name h = n)) (t_holds tp)) as Hin'.
-      { apply elem_of_lfilter. split; [by apply bool_decide_eq_true|]. rewrite Hh. left. }
+    destruct (List.filter (λ h, bool_decide (h_name h = n)) (t_holds t)) as [|h1 [|h2 r]] eqn:Efil.
+    - exfalso. assert (hk ∈ List.filter (λ h, bool_decide (h_name h = n)) (t_holds t)) as Hin'.
+      { apply elem_of_lfilter. split; [by apply bool_decide_eq_true|done]. }
       rewrite Efil in Hin'. by apply elem_of_nil in Hin'.
-    - (* exactly one hold of that name: it is the one that went *)
+    - (* exactly one hold of that name: it is the one that goes *)
       left. assert (h1 = hk) as ->.
       { assert (hk ∈ [h1]) as Hin'; [|by apply elem_of_list_singleton in Hin'].
-        rewrite <- Efil. apply elem_of_lfilter. split; [by apply bool_decide_eq_true|]. rewrite Hh. left. }
-
-      destruct HTm as [H1 H2 H3 H4 H5]. split; simpl; try congruence; [|exact HXp].
-      eapply HR_perm; [|exact H3]. rewrite (lfilter_perm _ _ _ Hh). simpl.
-      rewrite Hhn, !bool_decide_eq_true_2 by done. simpl. symmetry. rewrite lfilter_all; [done|].
-      intros h Hh'. apply negb_true_iff. destruct (bool_decide (h_name h = n)) eqn:E1; [|done]. simpl.
-      apply bool_decide_eq_false. intros E2. apply bool_decide_eq_true in E1. apply Hdead.
-      destruct (hr_tab _ _ _ _ _ _ H3 h Hh') as [Hi _]. apply intab_livel in Hi. simpl in Hi. by rewrite E1, E2, Hhkk in Hi.
-    - (* several: deferred to the next probe *)
-      right. exists n, hk, tm. simpl. rewrite Ep, (tr_pending _ _ _ _ HTm). split_and!; try done.
-      by rewrite Hhkk.
+        rewrite <- Efil. apply elem_of_lfilter. split; [by apply bool_decide_eq_true|done]. }
+      rewrite Hhkk. exact HTm.
+    - (* several: the oracle defers to the next probe *)
+      right. set (tp := t_completions cfg i None outs (t <| t_pending := n :: t_pending t |>)).
+      assert (st_now s < match h_deadline hk with Some d => d | None => st_now s + 1 end) as Hal.
+      { pose proof (hr_lease _ _ _ _ _ _ (tr_holds _ _ _ _ HT) Hsh hk Hhk) as Hl. rewrite Hl. unfold tdl.
+        destruct (st_timers s !! tkey (h_name hk) (h_key hk)) as [tm'|] eqn:Et; simpl; [|lia].
+        by destruct (inv_timers _ _ HI _ _ Et) as (_ & ? & _). }
+      assert (Ext hk tm tp) as (En & Ep & Ew & Hh & Hf).
+      { unfold tm, tp. rewrite !t_completions_eq. apply done_list_Ext.
+        - intros c Hc. rewrite sort_completions_eq, sortc_perm in Hc.
+          rewrite Hco in Hc. destruct c as [[w a] r']. apply elem_of_comps in Hc. destruct (Ho _ Hc) as (w' & key & [= -> -> ->] & _).
+          unfold alive, c_at. simpl. destruct (h_deadline hk); [lia|done].
+        - split_and!; simpl; try done; [by rewrite Hhn|].
+          rewrite (NoDup_key_split hkey (t_holds t) hk (hr_nodup _ _ _ _ _ _ (tr_holds _ _ _ _ HT)) Hhk) at 1. constructor.
+          apply Permutation_refl', lfilter_ext. intros h _. unfold hkey. rewrite <- Hhn, <- Hhkk. f_equal.
+          repeat case_bool_decide; simpl; try done; try congruence. }
+      assert (¬ SeqDefs.live s1 n k) as Hdead.
+      { intros Hl. destruct (TR_live_some _ _ _ _ HTm _ _ Hl) as (h & _ & Hh' & Hn' & Hk').
+        assert (h ∈ t_holds tm) as Hh'' by done. clear Hh'.
+        assert (∀ h, h ∈ t_holds tm → h_name h = n → h_key h ≠ k) as Hnok; [|by eapply Hnok].
+        clear h Hh'' Hn' Hk'. unfold tm. rewrite t_completions_eq.
+        assert (∀ c, c ∈ sort_completions outs → ∀ key e, c_resp c = RLock true key e → key ≠ k) as Hkeys.
+        { intros c Hc key e Er. rewrite sort_completions_eq, sortc_perm, Hco in Hc. destruct c as [[w a] r']. apply elem_of_comps in Hc.
+          destruct (Ho _ Hc) as (w' & key' & [= -> -> ->] & Hne'). unfold c_resp in Er. simpl in Er. by injection Er as <- _. }
+        revert Hkeys. generalize (sort_completions outs). intros cs.
+        assert (∀ h, h ∈ t_holds (drop_hold n k t) → h_name h = n → h_key h ≠ k) as H0.
+        { intros h [Hf' _]%elem_of_lfilter Hn' Hk'. rewrite Hn', Hk', !bool_decide_eq_true_2 in Hf' by done. done. }
+        revert H0. generalize (drop_hold n k t). induction cs as [|c cs IH]; intros t0 H0 Hkeys; [done|]. simpl.
+        apply IH; [|intros; eapply Hkeys; [by right|done]].
+        intros h. rewrite done1_eq. simpl. unfold dh. destruct (findw _ _) as [|w rest]; [by apply H0|].
+        intros [[_ Hh']%elem_of_lfilter|Hh']%elem_of_app; [by apply H0|].
+        destruct (c_resp c) as [[] key e| |] eqn:Er; try (by apply elem_of_nil in Hh'). apply elem_of_list_singleton in Hh' as ->. simpl.
+        intros _. eapply Hkeys; [left|done]. }
+      exists n, hk, tm. fold tp. rewrite Ep, (tr_pending _ _ _ _ HTm), Hhn. split_and!; try done.
+      + by rewrite Hhkk.
+      + intros j tag Hj. by apply (tr_fail _ _ _ _ HTm), Hf.
   Qed.
 
   (** the probe that follows resolves the deferred unlock *)
   Lemma track_probe_pending_ok s t : Inv cfg s → TRP X cfg s t →
-    TR X cfg s (track_step cfg i EProbe [OListing (listing s); OFile (file_view s); OTable (table_view s)] t).
+    TR X cfg s (track_step0 cfg i EProbe [OListing (listing s); OFile (file_view s); OTable (table_view s)] t).
   Proof.
     intros HI (n & hk & tm & Ep & Hhn & Hdead & HTm & Hh & Ew & En & HX).
     pose proof (track_probe_ok X cfg i s tm HI HTm) as HP. simpl in *. unfold t_probe in *. simpl in *.
